@@ -611,6 +611,7 @@ func execute(s *server, c *Case) (res result, herr error) {
 
 	rt := client.New("verif.test", c.Base, []string{"http"})
 	rt.Transport = w
+	rt.Debug = false // whatever SWAGGER_DEBUG / DEBUG say in the environment
 	writer := runtime.ClientRequestWriterFunc(func(req runtime.ClientRequest, _ strfmt.Registry) error {
 		// generated code sets the operation's timeout here; 0 = none, so that no verdict depends on the clock
 		if err := req.SetTimeout(0); err != nil {
